@@ -212,7 +212,13 @@ func Program(t *rapid.T, f PFlags) Prog {
 		k, gn := "kr", "gr"
 		forms = append(forms, call("def", sym(k), val.I(g.pick("kr0", 9))))
 		body := call("+", sym("a"), call("+", sym(k), sym("c")))
-		switch g.pick("redefkind", 3) {
+		switch g.pick("redefkind", 5) {
+		case 3: // (let (kr kr) …): the closure keeps the value the global had when the let ran
+			forms = append(forms, call("def", sym(gn), call("let", lst(sym(k), sym(k)), call("fn", lst(sym("a")), call("+", sym("a"), sym(k))))))
+		case 4: // the same through a parameter that is re-defined inside the function after the closure was made
+			forms = append(forms, call("def", sym(gn), lst(call("fn", lst(sym("p")),
+				call("let", lst(sym("q"), call("let", lst(sym("p"), sym("p")), call("fn", lst(sym("a")), call("+", sym("a"), sym("p"))))),
+					call("def", sym("p"), val.I(700)), sym("q"))), sym(k))))
 		case 0:
 			forms = append(forms, call("def", sym(gn), call("let", lst(sym("c"), val.I(g.pick("c0", 5))), call("fn", lst(sym("a")), body))))
 		case 1:
